@@ -551,6 +551,28 @@ fn run_ok(case: &J) -> R<J> {
     Ok(json!({"ev": "Multi", "events": events}))
 }
 
+/// binding T, second leg: a projection found in the tree, rendered again by the reference grammar
+fn run_rerender(case: &J) -> R<J> {
+    let toks = case["toks"].as_array().ok_or("toks")?;
+    let styles = case["styles"].as_array().ok_or("styles")?;
+    let n = case["base"].as_array().ok_or("base")?.len();
+    let mut events = vec![];
+    for (si, st) in styles.iter().enumerate() {
+        let ts = toks.get(si).and_then(|x| x.as_array()).ok_or("style toks")?;
+        let mut rng = StdRng::seed_from_u64(case_seed(case, 20 + si as u64));
+        let mut each = vec![];
+        for p in &split_policies(ts) {
+            each.push(spell(&mut rng, p, false)?);
+        }
+        let text = each.join("\n");
+        let mut v = Views::new();
+        round_trips(&text, &each, &mut v);
+        events.push(json!({"ev": "Stable", "src": format!("{}@{}", case["src"].as_str().unwrap_or("?"), st.as_str().unwrap_or("?")),
+                           "n": n, "base": case["base"], "text": text, "views": v.views}));
+    }
+    Ok(json!({"ev": "Multi", "events": events}))
+}
+
 fn run_reject(case: &J) -> R<J> {
     let toks = case["toks"].as_array().ok_or("toks")?;
     let mut rng = StdRng::seed_from_u64(case_seed(case, 7));
@@ -598,6 +620,7 @@ pub fn run(case: &J) -> R<J> {
     match case["kind"].as_str().unwrap_or("ok") {
         "ok" => run_ok(case),
         "reject" => run_reject(case),
+        "rerender" => run_rerender(case),
         "text" => Ok(run_text(case["src"].as_str().unwrap_or("inline"), case["text"].as_str().ok_or("text")?)),
         "file" => {
             let path = case["path"].as_str().ok_or("path")?;
